@@ -72,6 +72,16 @@ def replay(path):
         bld = bld or 'thr-rel'
         exe, failed = build.build_world('threads', bld, ['core', 'thr'], thorough=True)
         rp = threads_check.ThrReplayer(exe, ','.join(sorted(failed)), STACK_IDS)
+    elif world == 'golden':
+        import subprocess, os
+        exe, failed = build.build_world('golden', bld or 'rel-plain', ['core', 'io'], thorough=True)
+        p = subprocess.run([exe, '--verify', os.path.join(build.VERIF, 'golden'), '--tier', 'thorough'], capture_output=True, text=True)
+        hits = [l for l in p.stdout.splitlines() if ' VIOL ' in l and (expect is None or ('key=' + expect) in l)]
+        for l in hits[:5]:
+            print('REPLAY VIOL ' + l[l.index('key='):])
+        if not hits:
+            print('REPLAY ok (golden set verifies)')
+        return 1 if hits else 0
     else:
         print('unknown world', world)
         return 2
